@@ -53,6 +53,13 @@ def features(body):
             c = cls(t, nxt)
             if c[:2] in ("f:", "T:"):
                 f.add(c)
+            if c[:2] == "f:":
+                # the kind of the first argument (its outermost cast type / operand class): JUMP((int64_t) ..) vs JUMP(RsV) vs JUMP(riV + ..)
+                j = i + 1
+                while j < len(ts) and ts[j] in "(~!-":
+                    j += 1
+                if j < len(ts):
+                    f.add(("arg", t, cls(ts[j], ts[j + 1] if j + 1 < len(ts) else "")))
     # chains of casts: (A)(B)x with A != B, and (A)(B)(C)x -- conversions compose, a change to one link shows only in the chain
     chain = []
     for t in ts:
